@@ -138,12 +138,16 @@ def colPVal : ColVals → PVal
 def colEntry (nuc : Str × Str × PVal) : Str × PVal :=
   (nuc.1, .dict [(sUnit, .str nuc.2.1), (sValues, nuc.2.2)])
 
+/-- `zip(columns.keys(), units)` with the column's array looked up (columns are one per name, in order) -/
+def precursorColumns (p : Precursor) : List (Str × PVal) :=
+  (p.names.zip (p.units.zip p.columns)).map (fun nuc => colEntry (nuc.1, nuc.2.1, colPVal nuc.2.2))
+
 /-- the dict `make_table_json_data` hands to `to_json_serializable`: "units" and "origin" deleted,
     "columns" re-assigned in place (so it stays the second member); `zip(columns.keys(), units)` drops
     the columns beyond the units -/
 def precursorPVal (p : Precursor) : PVal :=
   .dict [(sName, .str p.name),
-         (sColumns, .dict (dictOfList ((p.names.zip (p.units.zip (p.columns.map colPVal))).map colEntry))),
+         (sColumns, .dict (dictOfList (precursorColumns p))),
          (sDestinations, .dict (p.destinations.map (fun d => (d, PVal.none))))]
 
 /-- `make_table_json_data` after a successful `make_table_json_precursor` -/
